@@ -5,7 +5,7 @@ from props import smf
 def run(ctx):
     q = ctx.quick
     ctx.cov["rule"] = ("write side: random API histories; the unfaulted write fixes total; then for EVERY byte offset k < total (strided in the middle above 400 bytes) a destination "
-                       "that accepts exactly k bytes, in two modes (short count + error / error on the crossing write): WriteTo must return an error; without fault: "
+                       "that accepts exactly k bytes, in five modes (short count + error / error on the crossing write / one transient failure / short count + io.ErrShortWrite / io.EOF as the error value), a third of the cases with a logger configured: WriteTo must return an error; without fault: "
                        "nil and size = bytes accepted.  read side: valid files; a source that fails with a sticky non-EOF error after k bytes, for every k (two "
                        "fragmentations): if k is before the end of the last track (computed by TLC with SmfParse!Run) the call must return an error. "
                        "distinct by (file, k, mode); non-trivial = fault strictly inside the stream")
@@ -15,8 +15,8 @@ def run(ctx):
     recs = []
     seeds = [ctx.seed] if q else [ctx.seed + i for i in range(4)]
     for s in seeds:
-        recs += smf.gen(ctx, "wfault", 80 if q else 600, s + 500, "c10", big=True)
-        recs += smf.gen(ctx, "rfault", 80 if q else 600, s + 600, "c10", big=True)
+        recs += smf.gen_par(ctx, "wfault", 80 if q else 600, s + 500, "c10", 4 if q else 6, big=True)
+        recs += smf.gen_par(ctx, "rfault", 80 if q else 600, s + 600, "c10", 2 if q else 4, big=True)
     fails = smf.validate(ctx, recs)
     n = sum(len(r["faults"]) for r in recs)
     ctx.count(n, [(r["ev"], r["id"], f["k"], f.get("mode", f.get("frag"))) for r in recs for f in r["faults"] if f["k"] > 0],
